@@ -295,3 +295,69 @@ def rule_winalias_bounds(ctx, prop: str) -> RuleResult:
         res.add(Finding("WINALIAS", B, t.lineno, t.qualname, "three-kinds", "translate_eff must translate reads, writes and reduces"))
     res.floor = 6
     return res
+
+
+def _err_guard(fnode: ast.AST, test_pat: str, err_names=("err", "err_handler")) -> bool:
+    """Is there an `if <test_pat>: ... self.err(...)` (any depth; elif counts)?"""
+    tp = pat.parse_expr(test_pat)
+    for n in ast.walk(fnode):
+        if isinstance(n, ast.If) and pat.match(tp, n.test) is not None:
+            if any(isinstance(x, ast.Call) and last_name(x) in err_names for s in n.body for x in ast.walk(s)):
+                return True
+    return False
+
+
+def rule_typedisc(ctx, prop: str) -> RuleResult:
+    """The typing discipline the later analyses rely on (quasi-affine indices, positive
+    literal divisors, bool conditions, ranks, argument kinds): each rejection is a raising
+    test in the typechecker; the SMT encodings *assert* these facts."""
+    ix = ctx.ix
+    res = RuleResult("TYPEDISC")
+    m = ix.module(TC)
+
+    def need(ok, f, key, msg):
+        res.instances += 1
+        res.nontrivial += 1
+        res.ob(ok)
+        res.sample(f"{f.qualname}: {key}: {ok}")
+        if not ok:
+            res.add(Finding("TYPEDISC", TC, f.lineno, f.qualname, key, msg + " — the typechecker no longer rejects it, and the bounds/effect analyses assume it"))
+
+    ce = m.func("TypeChecker.check_e")
+    res.analysed.append(f"{TC}:{ce.qualname}")
+    need(_err_guard(ce.node, "_M_r.type != T.int or not isinstance(_M_r, LoopIR.Const)"), ce, "div-by-literal", "the divisor of an index `/` or `%` must be an integer literal")
+    need(_err_guard(ce.node, "_M_r.val <= 0"), ce, "div-positive", "the divisor of an index `/` or `%` must be positive (<= 0 rejected)")
+    # non-affine product: the final else of `if lhs.type == T.int ... elif rhs.type == T.int ... else: err`
+    ok = False
+    for n in ast.walk(ce.node):
+        if isinstance(n, ast.If) and pat.match(pat.parse_expr("_M_l.type == T.int"), n.test) is not None and len(n.orelse) == 1 and isinstance(n.orelse[0], ast.If):
+            k = n.orelse[0]
+            if pat.match(pat.parse_expr("_M_r.type == T.int"), k.test) is not None and any(isinstance(x, ast.Call) and last_name(x) == "err" for s in k.orelse for x in ast.walk(s)):
+                ok = True
+    need(ok, ce, "quasi-affine-product", "a product of two non-literal index expressions is non-affine")
+    need(_err_guard(ce.node, "_M_o.type is not T.bool"), ce, "logical-needs-bool", "operands of and/or must be bool")
+    need(_err_guard(ce.node, "not _M_o.type.is_indexable()"), ce, "compare-needs-index", "operands of comparisons must be index/size expressions")
+    need(_err_guard(ce.node, "_M_e.op == '%'"), ce, "no-real-modulus", "modulus of real values is rejected")
+    need(_err_guard(ce.node, "len(_M_s) != len(_M_e.idx)"), ce, "window-rank", "a window expression must give one access per dimension")
+    ca = m.func("TypeChecker.check_access")
+    res.analysed.append(f"{TC}:{ca.qualname}")
+    need(_err_guard(ca.node, "_M_i.type != T.err and (not _M_i.type.is_indexable())"), ca, "index-type", "buffer indices must be index/size expressions")
+    need(_err_guard(ca.node, "len(_M_idx) > len(_M_t.shape())"), ca, "too-many-indices", "an access cannot have more indices than the buffer has dimensions")
+    need(_err_guard(ca.node, "_M_lv and len(_M_t.shape()) != len(_M_idx)"), ca, "lvalue-rank", "an assignment must index every dimension")
+    cs = m.func("TypeChecker.check_single_stmt")
+    res.analysed.append(f"{TC}:{cs.qualname}")
+    need(_err_guard(cs.node, "_M_r.type != T.err and (not _M_r.type.is_real_scalar())"), cs, "assign-scalar", "the right-hand side of an assignment/reduction must be a real scalar")
+    need(_err_guard(cs.node, "_M_c.type != T.err and _M_c.type != T.bool"), cs, "if-cond-bool", "an if condition must be bool")
+    need(sum(1 for n in ast.walk(cs.node) if isinstance(n, ast.If) and pat.match(pat.parse_expr("_M_b.type != T.err and (not _M_b.type.is_indexable())"), n.test) is not None) >= 2, cs, "loop-bounds-index", "both loop bounds must be index/size expressions")
+    need(any(isinstance(n, ast.Call) and last_name(n) == "check_call_types" for n in cs.all_nodes()), cs, "call-arg-kinds", "call arguments must be checked against the callee's signature")
+    need(_err_guard(cs.node, "not _M_s.config.has_field(_M_s.field)"), cs, "config-field", "a configuration write must name an existing field")
+    ct = m.func("check_call_types")
+    res.analysed.append(f"{TC}:check_call_types")
+    need(_err_guard(ct.node, "len(_M_a.type.shape()) != len(_M_s.type.shape())"), ct, "arg-rank", "a tensor argument must have the rank the callee declares")
+    need(_err_guard(ct.node, "not _M_a.type.is_indexable()"), ct, "arg-index", "size/index parameters need index arguments")
+    need(_err_guard(ct.node, "not _M_a.type is T.bool") or _err_guard(ct.node, "_M_a.type is not T.bool"), ct, "arg-bool", "bool parameters need bool arguments")
+    init = m.func("TypeChecker.__init__")
+    need(_err_guard(init.node, "_M_p.type != T.err and _M_p.type != T.bool"), init, "pred-bool", "assertions must be bool")
+    need(_err_guard(init.node, "_M_a & _M_b != set()"), init, "config-write-loop-invariant", "configuration writes must not depend on loop iterators")
+    res.floor = 18
+    return res
